@@ -187,6 +187,46 @@ pub fn drive(args: &[String]) -> i32 {
             }
             continue;
         }
+        if c.get("kernel").and_then(|k| k.as_str()) == Some("hin") {
+            // HIN: one word per call, value monotone in the word - increasing or decreasing depending on the reductions the constructor
+            // applied.  T[x] = number of words with value <= x (increasing) resp. >= x (decreasing): a prefix either way.
+            let pu = |k: &str| -> u64 { c[k].as_str().unwrap().parse().unwrap() };
+            let (nn, kk, ns) = (pu("N"), pu("K"), pu("n"));
+            let xs: Vec<u64> = c["xs"].as_array().unwrap().iter().map(|x| x.as_u64().unwrap()).collect();
+            let res = guarded(|| -> Value {
+                let d = Hypergeometric::new(nn, kk, ns).expect("constructor");
+                let mut r = ScriptRng::new(vec![0], 0);
+                let mut call = |w: u64| -> (u64, u64) { r.prefix[0] = w; r.pos = 0; r.state = 41 ^ w; r.n32 = 0; r.n64 = 0; r.nbytes = 0; let o = d.sample(&mut r); (o, r.words()) };
+                let (o_lo, o_hi) = (call(0).0, call(u64::MAX).0);
+                let inc = o_lo <= o_hi;
+                let mut one_word = true; let mut mono = true; let mut last = o_lo;
+                for i in 0..4096u64 { let (o, nw) = call(i << 52); if nw != 1 { one_word = false; } if (inc && o < last) || (!inc && o > last) { mono = false; } last = o; }
+                let ts: Vec<Vec<i64>> = xs.iter().map(|&x| l14(first_true(0, ALL, |w| { let o = call(w as u64).0; if inc { o > x } else { o < x } }))).collect();
+                json!({"op": "hin", "case": id, "dir": if inc { "inc" } else { "dec" }, "mono": mono, "one_word": one_word, "T": ts, "show": [format!("{} {} {}", nn, kk, ns), format!("{}..{}", o_lo, o_hi)]})
+            });
+            match res {
+                Ok(mut e) => { e["res"] = json!("Ok"); out.push(e.to_string()); },
+                Err(p) => out.push(json!({"op": "hin", "case": id, "dir": "inc", "mono": false, "one_word": false, "T": [], "res": format!("Panic: {}", p)}).to_string()),
+            }
+            continue;
+        }
+        if c.get("kernel").and_then(|k| k.as_str()) == Some("btpeg") {
+            // granularity of the values returned: over 4096 random streams the binomial law (standard deviation >> 1) returns odd and
+            // even values alike; reported: the smallest number of trailing zero bits seen
+            let n: u64 = c["n"].as_str().unwrap().parse().unwrap();
+            let pr: f64 = c["p"].as_str().unwrap().parse().unwrap();
+            let res = guarded(|| -> Value {
+                let d = Binomial::new(n, pr).expect("constructor");
+                let mut tz = 64u32; let mut mx = 0u64;
+                for i in 0..4096u64 { let mut r = ScriptRng::new(vec![], 0x5151 + i); let o = d.sample(&mut r); tz = tz.min(o.trailing_zeros()); mx = mx.max(r.words()); }
+                json!({"op": "btpeg", "case": id, "tzmin": tz, "n": c["n"], "show": [format!("{}", n), format!("{:e}", pr), format!("max words {}", mx)]})
+            });
+            match res {
+                Ok(mut e) => { e["res"] = json!("Ok"); out.push(e.to_string()); },
+                Err(p) => out.push(json!({"op": "btpeg", "case": id, "tzmin": -1, "n": c["n"], "res": format!("Panic: {}", p)}).to_string()),
+            }
+            continue;
+        }
         if c.get("kernel").and_then(|k| k.as_str()) == Some("cheng") {
             // Cheng BB / BC (Beta<f64>): first uniform word j 2^60 (u1 = j/16 + 2^-53), accepting second words are a prefix
             let a: f64 = c["a"].as_str().unwrap().parse().unwrap(); let b: f64 = c["b"].as_str().unwrap().parse().unwrap();
